@@ -795,6 +795,25 @@ def derived_name_gadgets():
     for nm in DERIVED:
         yield {"spec": spec(nm, "ev"), "naming": naming}
         yield {"spec": spec("x", nm), "naming": naming}
+    # a 0-d wrapped datum (and a stored intermediate) NAMED like an index
+    # variable, used next to an array with axes
+    for nm in ("_0", "_1", "_r0", "_in0", "_00", "__0"):
+        nodes = [
+            {"op": "placeholder", "p": {"name": "x", "dtype": "float64",
+                                        "shape": [4], "scale": 0,
+                                        "values": [1, -2, 4, 8]}},
+            {"op": "data", "p": {"shape": [], "dtype": "float64",
+                                 "values": [5], "scale": 0}},
+            {"op": "add", "args": [["n", 0], ["n", 1]]}]
+        yield {"spec": {"nodes": nodes, "outputs": [["out0", 2]]},
+               "naming": dict(naming, data={"1": ["Named", nm]})}
+        nodes2 = [
+            nodes[0],
+            {"op": "sum", "args": [["n", 0]], "p": {"axis": None}},
+            {"op": "add", "args": [["n", 0], ["n", 1]]}]
+        yield {"spec": {"nodes": nodes2, "outputs": [["out0", 2]]},
+               "naming": dict(naming, tags={"1": [["ImplStored"],
+                                                  ["Named", nm]]})}
 
 
 def replay(case) -> Failure | None:
